@@ -24,7 +24,10 @@ RULE = (
     "expression is run on 2 records of a 17-18 record pool (every field type, None values, empty lists, nested records, "
     "heterogeneous shapes, one grouped record).  Part 1c: field_equals / field_contains / field_regex on every field of "
     "the 33-field main shape (all field types) with candidate strings equal to the text form of the field's value, a "
-    "case variant, a list element and a non-matching string.  A case is non-trivial when the reference evaluator defines it (every "
+    "case variant, a list element and a non-matching string.  Part 1d: typed matchers (== in >= > <= on Type.string / "
+    "wstring / varint / float / net.ipaddress / uri[.attr] / datetime.year, forward and reverse membership) on records "
+    "with 3-4 levels of record / record[] nesting where every depth carries its own values and the expression is built "
+    "from the values of one depth.  A case is non-trivial when the reference evaluator defines it (every "
     "sub-expression evaluated eagerly without error) and it reads at least one field; distinct = distinct (expression, "
     "pool seed, record index).  Oracle: an independent AST walker giving every node its Python meaning "
     "(verif/refselector.py), itself cross-checked against builtin eval on every defined case without a typed matcher. "
@@ -337,6 +340,14 @@ def generate(ctx):
                     if ctx.mine(idx):
                         yield {"k": "helper-type", "kind": ftype, "expr": expr, "tags": [], "pool": ps, "rec": ri}
                     idx += 1
+    # part 1d: typed matchers whose only matching value sits at nesting depth k = 0..4 (record / record[] chains)
+    for ps in pool_seeds[:ctx.scale(2, 4)]:
+        for ri, (rec, levels) in enumerate(deep_for(ctx, ps)):
+            for k, vals in enumerate(levels):
+                for expr in deep_exprs(k, vals, len(levels) - 1):
+                    if ctx.mine(idx):
+                        yield {"k": "deep", "kind": "depth%d" % k, "expr": expr, "tags": [], "pool": ps, "rec": ri}
+                    idx += 1
     # part 2: random expressions, deeper
     n = ctx.scale(450, 14000)
     depths = [0, 1, 2, 2, 3, 3] if ctx.quick else [1, 2, 3, 3, 4, 4, 5, 6]
@@ -346,6 +357,33 @@ def generate(ctx):
         e, tags = selgen.gen_expr(rng, rng.choice(depths), support=support, avoid=(), with_tags=True)
         for ri in pick_records(rng):
             yield {"k": "random", "expr": e, "tags": tags, "pool": pool_seeds[i % npools], "rec": ri}
+
+
+def deep_for(ctx, seed):
+    cache = ctx.state.setdefault("deep", {})
+    if seed not in cache:
+        cache[seed] = selgen.deep_records(random.Random(seed ^ 0x5EED), 6 if ctx.quick else 12)
+    return cache[seed]
+
+
+def deep_exprs(k, v, deepest):
+    """Typed-matcher expressions decided by the values of nesting depth k alone (v = selgen.level_values of that depth)."""
+    s, n, ip, f, w = v["string"], v["varint"], v["net.ipaddress"], v["float"], v["wstring"]
+    salt = s.split("-")[1]
+    fname = "file%d-%s.txt" % (k, salt)
+    out = [
+        "Type.string == %r" % s, "Type.string in [%r, 'zz']" % s, "%r in Type.string" % ("lvl%d-" % k), "Type.wstring == %r" % w,
+        "Type.wstring >= %r" % w, "Type.varint == %d" % n, "Type.varint in [%d, 5]" % n, "Type.varint >= %d" % n, "Type.varint > %d" % (n - 1),
+        "Type.varint <= %d" % n, "Type.net.ipaddress == %r" % ip, "Type.net.ipaddress in net.ipnetwork('10.%d.0.0/16')" % (20 + k),
+        "Type.uri.filename == %r" % fname, "Type.uri.hostname == 'h%d.example'" % k, "%r in Type.uri" % ("dir%d/" % k),
+        "Type.datetime.year == %d" % (2001 + k), "Type.datetime.year > %d" % (2000 + k), "Type.float == %r" % f, "Type.float >= %r" % f,
+        "Type.string == %r and Type.varint == %d" % (s, n), "not (Type.string == %r)" % s, "Type.string == %r or Type.varint == 7" % s,
+        "any(Type.varint == x for x in [1, %d])" % n,
+        # values that occur at no depth
+        "Type.string == 'lvl%d-x'" % k, "Type.varint == %d" % (n + 1), "Type.net.ipaddress == '10.%d.99.99'" % (20 + k),
+        "Type.uri.filename == 'file%d-none.txt'" % k,
+    ]
+    return out
 
 
 def helper_type_exprs(rec, ftype, fname):
@@ -392,7 +430,10 @@ def execute(ctx, case):
     from flow.record.selector import CompiledSelector, Selector
 
     expr = case["expr"]
-    rec = pool_for(ctx, case["pool"])[case["rec"]]
+    if case["k"] == "deep":
+        rec = deep_for(ctx, case["pool"])[case["rec"]][0]
+    else:
+        rec = pool_for(ctx, case["pool"])[case["rec"]]
     shape = selgen.shape_of(rec)
     ctx.ev()
     tree = ast.parse(expr, mode="eval")
@@ -430,6 +471,8 @@ def execute(ctx, case):
             return
 
     kinds = node_kinds(tree)
+    if case["k"] == "deep":
+        ctx.cell("typed-matcher-depth", case["kind"], ref)
     if case["k"] == "helper-type":
         ctx.cell("helper-on-type", case["kind"], expr.split("(")[0])
         ctx.event("defined:helper-on-type")
@@ -473,6 +516,9 @@ def finish(ctx):
         ctx.require(have >= need, "must-support kind %s has only %d defined cases in shard %d (need %d)" % (k, have, ctx.shard, need))
     ctx.require(ctx.events.get("oracle_selfcheck_agree", 0) > 0, "the oracle self-check against builtin eval never ran")
     ctx.require(ctx.events.get("defined:may-reject", 0) > 0, "no defined may-reject case")
+    for k in range(4):
+        ctx.require(ctx.cells.get("typed-matcher-depth/depth%d/True" % k, 0) > 0,
+                    "no defined typed-matcher case decided by a value at nesting depth %d in shard %d" % (k, ctx.shard))
     for t in HELPER_TYPES_REQUIRED:
         ctx.require(ctx.cells.get("helper-on-type/%s/field_equals" % t, 0) > 0,
                     "field_equals on a %s field has no defined case in shard %d" % (t, ctx.shard))
